@@ -855,7 +855,7 @@ class Batch(object):
             pos = start + len(H.lines)
 
 
-PROOF_TARGETS = ['Proofs/AddrMain.vo']
+PROOF_TARGETS = ['Proofs/AddrMain.vo', 'Proofs/AddrDgram.vo']
 
 if __name__ == '__main__':
     main()
